@@ -329,6 +329,8 @@ def classify(v):
         return "embedded-tab-cr-lf"
     if re.match(r"[A-Za-z][A-Za-z0-9+.\-]*:", v):
         return "non-alpha-scheme-prefix"
+    if re.match(r"[a-z]+:", v, re.I):
+        return "non-ascii-scheme-letter"       # U+017F, U+212A, U+0130, U+0131 case-fold to ASCII letters
     return "other"
 
 
@@ -381,14 +383,19 @@ def check_case(case):
         if r != ("raise", "ValueError"):
             return ("move:crlf-accepted", "%s(location=%r) did not raise ValueError: %r" % (path[5:], v, r[:2]))
         return None
-    r = emit(path, e, v, add_slash)
+    r = emit(path, e, v, add_slash, case.get("key") or "Location")
+    absolute = not add_slash and v is not None and has_alpha_scheme(v)
     if r[0] == "raise":
+        if absolute:
+            return ("%s:absolute-url-rewritten" % kind,
+                    "%s: Location %r has an <alpha>+: scheme and must be sent unchanged, but serving it raised %s"
+                    % (path, v, r[1]))
         return ("%s:raises-%s" % (kind, r[1].split(":")[0]), "%s with Location %r on %r raised %s" % (path, v, e, r[1]))
     locs = r[1]
     if len(locs) != 1:
         return ("%s:location-count" % kind, "%s emitted %d Location headers for %r" % (path, len(locs), v))
     loc = locs[0]
-    if not add_slash and v is not None and has_alpha_scheme(v):
+    if absolute:
         if loc != v:
             return ("%s:absolute-url-rewritten" % kind,
                     "%s: Location %r has an <alpha>+: scheme and must be sent unchanged, got %r" % (path, v, loc))
@@ -397,6 +404,11 @@ def check_case(case):
     got = whatwg_origin(loc)
     if got != want:
         cause = "add-slash" if add_slash else ("no-location" if v is None else classify(v))
+        if kind != "response" and not add_slash and v is not None:
+            # the same value through the shared function: a failure there is the Response defect, not one of this path
+            r0 = emit("static", e, v)
+            if r0[0] == "ok" and whatwg_origin(r0[1][0]) != want:
+                kind = "response"
         return ("%s:%s" % (kind, cause),
                 "%s: scheme-less Location %r on request %s://%s%s%s was emitted as %r, whose origin is %r, not the "
                 "request's %r" % (path, v, e["scheme"], e["host"] or (e["name"] + ":" + e["port"]), e["script"] or "",
@@ -406,7 +418,8 @@ def check_case(case):
 
 # ============================================================================ generators
 ALPHABET = ["/", "\\", ".", "\t", " ", "\x01", "%", "@", ":", "?", "#", "a"]
-EXTRA = ["\r", "\n", "\x00", "\x1f", ";", "1", "+", "-", "A", "z", "\x7f", "\xa0", "\xe9", "2", "f", "h", "[", "="]
+EXTRA = ["\r", "\n", "\x00", "\x1f", ";", "1", "+", "-", "A", "z", "\x7f", "\xa0", "\xe9", "2", "f", "h", "[", "=",
+         "\u212a", "\u017f", "\uff0f", "\u2028"]
 SUFFIXES = ["", "evil.com", "evil.com/x", "@evil.com", "evil.com:80/x", "/evil.com/..", "http://evil.com", "%2f%2fevil.com",
             "\\evil.com", "evil.com?a#b", "../x", "./:x", "a1://evil.com", "svn+ssh://evil.com/", "javascript:alert(1)"]
 SEEDS = ["/\t/evil.com", "\t//evil.com", " //evil.com", "\x01//evil.com", "\thttp://evil.com", "//evil.com/x", "///evil.com",
@@ -416,6 +429,8 @@ SEEDS = ["/\t/evil.com", "\t//evil.com", " //evil.com", "\x01//evil.com", "\thtt
          "./../..//evil.com", "..//evil.com", ".//evil.com", "?//evil.com", "#//evil.com", ";//evil.com", "", ".", "..", "/",
          "a", "a/b;c?d#e", ";x", "?q", "#f", "\x00//evil.com", "\x1f//evil.com", "\x20\x20//evil.com", "\r//evil.com",
          "\n//evil.com", "/\r/evil.com", "/\n/evil.com", "\t", " ", "\t\t//evil.com", "/\t\t/evil.com", "\t/\t/evil.com",
+         "\u212a://evil.com/x", "\u017f://evil.com", "\u0130://evil.com", "\u0131:x", "\uff0f\uff0fevil.com",
+         "\u2028//evil.com", "\u3000//evil.com", "\x85//evil.com", "\xa0//evil.com", "htt\u212a://evil.com",
          "x:\t//evil.com", "1http://evil.com", "+://evil.com", ".://evil.com", "a.b://evil.com", "a-b:c", "A1:", "z9+.-:x"]
 ABSOLUTE = ["http://example.com/", "https://example.com/path?x=1#f", "HTTP://Example.com/a/../b?", "http://example.com/a b\tc",
             "ftp://example.com/%7e", "http://example.com", "mailto:user@example.com", "http:foo", "HTTPS://example.com:443/",
@@ -561,6 +576,7 @@ def run(ctx):
     for p in problems:
         ctx.broken.append("translator: " + p)
     ctx.build(["Props/C14.vo"])
+    seed_stage(ctx)
     rng = ctx.sub_rng("corr")
 
     # ---- urllib.parse model vs urllib.parse
@@ -630,8 +646,8 @@ def run(ctx):
         if rng.random() < 0.3:
             hl.insert(rng.randrange(len(hl) + 1), (rng.choice(["content-type", "CONTENT-LENGTH", "X-Other"]), "10"))
         out = impl_headers(path, e, hl)
-        locv = [v for k, v in hl if k.lower() == "location"]
-        orc = {"path": path, "env": e, "value": locv[0]} if len(locv) == 1 else None
+        locv = [(k, v) for k, v in hl if k.lower() == "location"]
+        orc = {"path": path, "env": e, "value": locv[0][1], "key": locv[0][0]} if len(locv) == 1 else None
         if path == "plain":
             cases.append(("(None, %s, %s)" % (cenv(e), cheaders(hl)), out, {"path": path, "env": e, "headers": hl, "oracle": orc}))
         else:
@@ -675,8 +691,7 @@ def run(ctx):
         "exits and all 8 redirect classes; a case is non-trivial when the value has no <alpha>+: scheme and is not empty")
     ctx.extra["exhaustive"] = False
     ctx.assume += [
-        "Location values and environ strings are latin-1 text (WSGI native strings); SCHEME_RE with re.I also accepts "
-        "U+017F and U+212A as letters, which cannot occur in a WSGI header",
+        "Location values are Python strings (any code points); environ strings are latin-1 text (WSGI native strings)",
         "wsgi.url_scheme is 'http' or 'https'; the request host (HTTP_HOST or SERVER_NAME:SERVER_PORT) is printable "
         "ASCII without / ? # [ ] \\ and is not empty after removing the default port; SCRIPT_NAME and PATH_INFO are "
         "empty or start with '/' (theorems); IPv6-literal hosts are covered by the oracle only",
@@ -691,6 +706,29 @@ def run(ctx):
     ]
 
 
+def seed_stage(ctx):
+    """The known-dangerous spellings first, through every serving path, so that a finding is reported with its
+    plainest example."""
+    paths = ["static", "plain", "cond-plain", "cond-304", "cond-206", "cond-416"] + ["move:" + c for c in MOVE_CLASSES]
+    e = mkenv(host="example.org", path="/dir/page", query="x=1")
+    cnt = nt = 0
+    for v in SEEDS + ABSOLUTE:
+        for path in paths:
+            cnt += 1
+            nt += 1 if (v and not has_alpha_scheme(v)) else 0
+            case = {"path": path, "env": e, "value": v}
+            res = check_case(case)
+            if res:
+                ctx.fail(res[0], res[1], case, True, "seeds")
+            elif path in ("plain", "cond-304") and v in ("//evil.com/x", "/\t/evil.com"):
+                for key in ("location", "LOCATION"):
+                    case = {"path": path, "env": e, "value": v, "key": key}
+                    res = check_case(case)
+                    if res:
+                        ctx.fail(res[0], res[1], case, True, "seeds")
+    ctx.oracle_count("seeds", cnt, nt)
+
+
 def oracle_sweep(ctx):
     # 1. exhaustive small strings through the static method, several environs
     bound = ctx.scale(4, 5)
@@ -703,6 +741,16 @@ def oracle_sweep(ctx):
             e = envs[(cnt + len(v)) % len(envs)]
             cnt += 1
             nt += 1 if (v and not has_alpha_scheme(v)) else 0
+            case = {"path": "static", "env": e, "value": v}
+            res = check_case(case)
+            if res:
+                ctx.fail(res[0], res[1], case, True, "exhaustive-static")
+    if ctx.thorough:          # every string of length 6 over the alphabet as well (no suffix)
+        for t in itertools.product(ALPHABET, repeat=6):
+            v = "".join(t)
+            e = envs[cnt % len(envs)]
+            cnt += 1
+            nt += 0 if has_alpha_scheme(v) else 1
             case = {"path": "static", "env": e, "value": v}
             res = check_case(case)
             if res:
@@ -730,12 +778,13 @@ def oracle_sweep(ctx):
     vals = list(dict.fromkeys(list(strings_upto(ALPHABET, b3)) + [s + "evil.com" for s in strings_upto(ALPHABET, b3)]
                               + SEEDS + ABSOLUTE))
     cnt = nt = 0
+    spellings = ["Location", "location", "LOCATION", "LoCaTiOn"]
     for i, v in enumerate(vals):
         for j, path in enumerate(paths):
             e = envs[(i + j) % len(envs)]
             cnt += 1
             nt += 1 if (v and not has_alpha_scheme(v)) else 0
-            case = {"path": path, "env": e, "value": v}
+            case = {"path": path, "env": e, "value": v, "key": spellings[(i + j) % 4]}
             res = check_case(case)
             if res:
                 ctx.fail(res[0], res[1], case, True, "all-paths")
